@@ -27,7 +27,7 @@ type c08Case struct {
 	Connect string `json:"connect"` // "" both producers connected | sshd_only | audit_only | none (for signals / EOF of the connected pipe)
 }
 
-var c08Causes = []string{"sshd_eof", "audit_eof", "malformed_audit", "malformed_audit_huge", "malformed_audit_then_login", "audit_eof_then_login", "write_error", "write_error_after_start",
+var c08Causes = []string{"sshd_eof", "audit_eof", "malformed_audit", "malformed_audit_huge", "malformed_audit_then_login", "audit_eof_then_login", "write_error", "write_error_after_start", "write_error_at_login_record",
 	"sshd_not_fifo:regular", "sshd_not_fifo:missing", "sshd_not_fifo:dir",
 	"audit_not_fifo:regular", "audit_not_fifo:missing", "audit_not_fifo:dir", "sigterm", "sigint"}
 
@@ -70,7 +70,7 @@ func execC08(c c08Case) Outcome {
 		o.AudPath = "dir"
 	case "write_error":
 		o.Output = "devfull"
-	case "write_error_after_start":
+	case "write_error_after_start", "write_error_at_login_record":
 		o.Output = "fifo"
 	}
 	switch c.Flags {
@@ -304,6 +304,20 @@ func execC08(c c08Case) Outcome {
 			for _, l := range audEventForOp(850, hop{K: "ev", S: 77, T: "USER_START", P: 4001}).Lines {
 				fmt.Fprintln(am, l)
 			}
+		case "write_error_at_login_record":
+			// the sshd line of a login is written; the output breaks; then the kernel's
+			// LOGIN record of that login arrives and finds its login waiting: the very
+			// first UserAction of the session cannot be written, and nothing follows
+			var am io.Writer = aw
+			if sat != nil {
+				am = sat
+			}
+			fmt.Fprintf(sw, "6001 Accepted password for w from 1.2.3.4 port 22 ssh2\n")
+			if !waitUntil(20*time.Second, func() bool { return atomic.LoadInt64(&outN) >= int64(4*c.Prefix+1) }) {
+				panic(&infraError{"login event not written: " + tailStr(d.stderrText(), 400)})
+			}
+			outR.Close()
+			fmt.Fprintln(am, audEventForOp(800, hop{K: "open", S: 77, P: 4001}).Lines[0])
 		case "write_error":
 			fmt.Fprintf(sw, "4242 Accepted password for u from 1.2.3.4 port 22 ssh2\n")
 		case "sigterm":
